@@ -34,8 +34,8 @@ def _it_accumulate(xs, func=None, initial=None):
     return tuple(itertools.accumulate(xs, func, initial=initial)) if func is not None or initial is not None else tuple(itertools.accumulate(xs))
 
 
-_PURE_BUILTINS = {"compress": lambda d, s_: tuple(x for x, k in zip(d, s_) if k), "pairwise": _it_pairwise, "accumulate": _it_accumulate, "chain": lambda *a: tuple(x for it_ in a for x in it_), "filter": lambda f, xs: tuple(x for x in xs if (f(x) if f is not None else x)), "map": lambda f, *xs: tuple(map(f, *xs)), "reduce": __import__("functools").reduce, "prod": __import__("math").prod, "ceil": __import__("math").ceil, "floor": __import__("math").floor, "dict": dict, "enumerate": lambda *a, **k: tuple(enumerate(*a, **k)), "range": lambda *a: tuple(range(*a)), "zip": lambda *a, **k: tuple(zip(*a, **k)), "sum": sum, "reversed": lambda x: tuple(reversed(x)), "str": str, "frozenset": frozenset}
-_PURE_METHODS = {"get", "items", "values", "keys", "index", "count", "copy", "append", "extend", "insert", "pop", "setdefault"}  # on concrete containers of the case (local to the simulation)
+_PURE_BUILTINS = {"compress": lambda d, s_: tuple(x for x, k in zip(d, s_) if k), "pairwise": _it_pairwise, "accumulate": _it_accumulate, "chain": lambda *a: tuple(x for it_ in a for x in it_), "filter": lambda f, xs: tuple(x for x in xs if (f(x) if f is not None else x)), "map": lambda f, *xs: tuple(map(f, *xs)), "reduce": __import__("functools").reduce, "prod": __import__("math").prod, "ceil": __import__("math").ceil, "floor": __import__("math").floor, "dict": dict, "enumerate": lambda *a, **k: tuple(enumerate(*a, **k)), "range": lambda *a: tuple(range(*a)), "zip": lambda *a, **k: tuple(zip(*a, **k)), "sum": sum, "reversed": lambda x: tuple(reversed(x)), "str": str, "frozenset": frozenset, "islice": lambda *a: tuple(__import__("itertools").islice(*a)), "from_iterable": lambda xs: tuple(y for x in xs for y in x), "zip_longest": lambda *a, **k: tuple(__import__("itertools").zip_longest(*a, **k)), "starmap": lambda f, xs: tuple(f(*x) for x in xs), "product": lambda *a, **k: tuple(__import__("itertools").product(*a, **k)), "repeat": lambda x, n: (x,) * n, "divmod": divmod, "round": round}
+_PURE_METHODS = {"get", "items", "values", "keys", "index", "count", "copy", "append", "extend", "insert", "pop", "setdefault", "join", "sort", "reverse", "split", "startswith", "endswith", "strip", "format", "update", "add", "union", "issubset", "remove", "discard"}  # on concrete containers of the case (local to the simulation)
 
 
 class Unsupported(Exception):
@@ -441,3 +441,38 @@ def shadow_hierarchy(repo, base) -> dict[str, type]:
     for c in repo.subclasses(base):
         build(c)
     return out
+
+
+def scalar_tensor_ops(interp, call: ast.Call, dotted: str | None):
+    """Call-hook helper for rules that interpret tensor code on SCALARS (a 1x1 reading of the matrix code): the element-wise
+    torch functions and their method twins are arithmetic on numbers — `torch.add(a, b, alpha=c)` == `a.add(b, alpha=c)` ==
+    `a + c*b`, likewise sub / mul / div / neg / abs / pow / sqrt / square / clone / detach / to.  Returns _MISSING otherwise."""
+    f = call.func
+    kw = {k.arg: k.value for k in call.keywords if k.arg}
+    name, operands = None, None
+    if dotted and dotted.startswith("torch.") and dotted.split(".")[-1] in ("add", "sub", "subtract", "mul", "multiply", "div", "divide", "true_divide", "neg", "negative", "abs", "pow", "sqrt", "square", "clone", "detach"):
+        name, operands = dotted.split(".")[-1], list(call.args)
+    elif isinstance(f, ast.Attribute) and f.attr.rstrip("_") in ("add", "sub", "subtract", "mul", "multiply", "div", "divide", "true_divide", "neg", "negative", "abs", "pow", "sqrt", "square", "clone", "detach", "to", "item", "float", "double"):
+        try:
+            recv = interp.ev(f.value)
+        except Unsupported:
+            return _MISSING
+        if not isinstance(recv, (int, float)) or isinstance(recv, bool):
+            return _MISSING
+        name, operands = f.attr.rstrip("_"), [f.value] + list(call.args)
+    if name is None:
+        return _MISSING
+    vals = [interp.ev(a) for a in operands]
+    if not all(isinstance(v, (int, float)) and not isinstance(v, bool) for v in vals):
+        return _MISSING
+    x = vals[0]
+    alpha = interp.ev(kw["alpha"]) if "alpha" in kw else 1
+    res = {
+        "add": lambda: x + alpha * vals[1], "sub": lambda: x - alpha * vals[1], "subtract": lambda: x - alpha * vals[1],
+        "mul": lambda: x * vals[1], "multiply": lambda: x * vals[1], "div": lambda: x / vals[1], "divide": lambda: x / vals[1], "true_divide": lambda: x / vals[1],
+        "neg": lambda: -x, "negative": lambda: -x, "abs": lambda: abs(x), "pow": lambda: x ** vals[1], "sqrt": lambda: x ** 0.5, "square": lambda: x * x,
+        "clone": lambda: x, "detach": lambda: x, "to": lambda: x, "item": lambda: x, "float": lambda: float(x), "double": lambda: float(x),
+    }[name]()
+    if isinstance(f, ast.Attribute) and f.attr.endswith("_") and isinstance(f.value, ast.Name) and not (dotted and dotted.startswith("torch.")):
+        interp.env[f.value.id] = res  # the in-place twin updates the receiver
+    return res
